@@ -350,6 +350,7 @@ def write_evidence(prop, args, agg, total_wall, search_wall, cut, nviol, known_l
             "injected_float_operator_fault": {"fired": agg.faults_fired.get("flt", 0)},
             "injected_backend_allocation_fault": {"fired": agg.faults_fired.get("alloc", 0)},
             "of_those_delivered_as_cancellation_BaseException": {"fired": agg.faults_fired.get("cancel", 0)},
+            "of_those_delivered_as_reentrant_callback_instead_of_an_exception": {"fired": agg.faults_fired.get("reenter", 0)},
             "natural_exceptions_by_type": dict(agg.natural),
         },
         "dispatch_overrides_with_a_raising_path_inside": len(agg.rid),
